@@ -45,9 +45,16 @@ def rawfull(f):
     return rawtree(f)
 
 
+def freeze(x):
+    """Immutable copy of nested lists/tuples (snapshots must not alias live objects)."""
+    if isinstance(x, (list, tuple)):
+        return tuple(freeze(y) for y in x)
+    return x
+
+
 def attrs_of(ra):
     d = ra._default
-    return (ra._id, ra._shape, ra._estimated_shape, ra._fmt, ra._default_is_set,
+    return (freeze(ra._id), freeze(ra._shape), ra._estimated_shape, ra._fmt, ra._default_is_set,
             unbox(d) if not isinstance(d, Fiber) else "Fiber")
 
 
@@ -215,6 +222,9 @@ def ids(obj):
         ra = getattr(f, "_rank_attrs", None)
         if ra is not None:
             out[id(ra)] = ra
+            for m in (ra._id, ra._shape):
+                if isinstance(m, list):
+                    out[id(m)] = m
             if isinstance(ra._default, (Payload, Fiber)):
                 out[id(ra._default)] = ra._default
         for p in f.payloads:
@@ -227,6 +237,9 @@ def ids(obj):
         for rk in obj.ranks:
             out[id(rk)] = rk
             out[id(rk._attrs)] = rk._attrs
+            for m in (rk._attrs._id, rk._attrs._shape):
+                if isinstance(m, list):
+                    out[id(m)] = m
             if isinstance(rk._attrs._default, (Payload, Fiber)):
                 out[id(rk._attrs._default)] = rk._attrs._default
             for f in rk.fibers:
